@@ -21,7 +21,7 @@ impl EndpointHandler<Log> for H {
 
 const METHODS: [Method; 3] = [Method::Get, Method::Put, Method::Patch];
 const PATHS: [&str; 6] = ["", "/", "/a", "/a/b", "/a:b", "/ab"];
-const PREFIXES: [&str; 2] = ["", "/p"];
+const PREFIXES: [&str; 3] = ["", "/p", "/q/"];
 
 fn mname(m: Method) -> &'static str {
     match m {
@@ -114,7 +114,7 @@ pub fn run(thorough: bool) -> Vec<Part> {
         return vec![];
     }
     let mut part = Part::new("C17", "router-tables-r", "exploration");
-    part.assume("prefixes {``, `/p`} x all registration sequences of length <= N (N = 4 quick, 5 thorough) over 3 methods x paths {``, `/`, `/a`, `/a/b`, `/a:b`, `/ab`} (duplicates included) x all requests over 3 methods x (prefix+path, bare path, trailing-slash and doubled-prefix near misses) in origin form and `http://h...` absolute form; handlers record their invocations through the argument; reference = map (method, prefix+path) -> first registered handler");
+    part.assume("prefixes {``, `/p`, `/q/`} x all registration sequences of length <= N (N = 4 quick, 5 thorough) over 3 methods x paths {``, `/`, `/a`, `/a/b`, `/a:b`, `/ab`} (duplicates included) x all requests over 3 methods x (prefix+path, bare path, trailing-slash and doubled-prefix near misses) in origin form and `http://h...` absolute form; handlers record their invocations through the argument; reference = map (method, prefix+path) -> first registered handler");
     let n = if thorough { 5 } else { 4 };
     let r = (METHODS.len() * PATHS.len()) as u64;
     let mut total = 0u64;
@@ -127,8 +127,8 @@ pub fn run(thorough: bool) -> Vec<Part> {
         workers(),
         120,
         |i, t| {
-            let prefix = PREFIXES[(i % 2) as usize];
-            let mut i = i / 2;
+            let prefix = PREFIXES[(i % 3) as usize];
+            let mut i = i / 3;
             let mut d = 0;
             while i >= r.pow(d) {
                 i -= r.pow(d);
